@@ -56,6 +56,31 @@ def rule_zeroing(rep, prog, rid='R04.zeroing'):
                f'node_zero_label = {z!r}', f.site)
 
 
+def _keep_forwarded(prog, m, fn, callee, with_keep):
+    """True when every call of `callee` inside `fn` receives the caller's own keep list (itself or a plain copy of it); None when not followed"""
+    ev = Evaluator(prog)
+    for n_ in with_keep:
+        if n_ != fn.name: ev.opaque_fns.add((NT, n_))
+    try:
+        t = call(ev, prog.func(NT, fn.name), [A('network'), A('keep')])
+    except Exception:
+        return None
+    hits = []
+    def walk(k):
+        if isinstance(k, tuple):
+            if len(k) == 4 and k[0] == 'call' and k[1] == ('fn', callee): hits.append(k)
+            for x in k: walk(x)
+    walk(tkey(t))
+    if not hits: return None
+    good = {tkey(A('keep')), tkey(Opq('list', A('keep'))), tkey(Opq('tuple', A('keep')))}
+    verdict = True
+    for h in hits:
+        kw = dict(h[3]); params = params_of(prog.func(NT, callee).node)[0]
+        got = kw.get('keep', h[2][params.index('keep')] if len(h[2]) > params.index('keep') else None)
+        if got is None or got not in good: verdict = False
+    return verdict
+
+
 def rule_keep(rep, prog, rid='R04.keep'):
     m = prog.mod(NT)
     fns = {n: d for n, d in m.defs.items() if isinstance(d, ast.FunctionDef)}
@@ -73,6 +98,10 @@ def rule_keep(rep, prog, rid='R04.keep'):
                     if k.arg == 'keep': passed = k.value
                 if passed is None and len(c.args) > idx: passed = c.args[idx]
                 ok = isinstance(passed, ast.Name) and passed.id == 'keep'
+                if not ok:
+                    # the list may be forwarded through a local / as a copy: look at the value the callee receives
+                    sem = _keep_forwarded(prog, m, fn, c.func.id, with_keep)
+                    if sem is not False: ok = sem
                 rep.ob(rid, f'{name}->{c.func.id}', ok, 'exemption list forwarded' if ok else
                        f'{name} calls {c.func.id} without forwarding its exemption list (keep={ast.unparse(passed) if passed is not None else "<default []>"})',
                        prog.site(m, c))
@@ -190,7 +219,7 @@ def rule_rename(rep, prog, rid='R16.rename'):
         if any(r is True for r in res): pairs_ok = True; why = '(absorbed, retained) = (n1, n2) unless n1 is the reference; shorts = is_short_circuit and not exempt'
         elif all(r is False for r in res): pairs_ok = False
     rep.ob(rid, 'contraction:pairs', pairs_ok, why, site, lhs=it)
-    rep.ob(rid, 'contraction:start', True if term_equal(init, branches) else (None if has_opaque(init) else False), f'starts from {init!r:.80}', site)
+    rep.ob(rid, 'contraction:start', True if term_equal(init, branches) else (None if init is None or has_opaque(init) else False), f'starts from {init!r:.80}', site)
     # ---- per-branch rewrite
     an_t, rn_t = A('absorbed'), A('retained')
     target = (an_t, rn_t)
